@@ -157,3 +157,25 @@ func Structured(n int, a, b, c byte, f func(name string, s []byte)) {
 	emit("thue-morse", ThueMorse(n, a, b))
 	emit("period-doubling", PeriodDoubling(n, a, b))
 }
+
+// LargeTexts returns three deterministic texts of n bytes whose parsing
+// crosses the 32 KiB read chunk of ReadFrom, several buffer fills of tens of
+// kilobytes and offsets/lengths beyond 2^16: a de Bruijn word over four
+// letters (every 8-gram once: few matches), a Fibonacci word (long matches at
+// many distances) and a text made of dictionary words chosen by a quadratic
+// residue pattern (natural-language-like match statistics).
+func LargeTexts(n int) [][]byte {
+	db := DeBruijn([]byte("acgt"), 8) // 65536 letters
+	for len(db) < n {
+		db = append(db, db...)
+	}
+	words := []string{"the ", "quick ", "brown ", "fox ", "jumps ", "over ", "lazy ", "dog ", "and ", "lempel ", "ziv ", "window ", "buffer ", "match ", "literal ", "offset ", "\n"}
+	var txt []byte
+	for i := 0; len(txt) < n; i++ {
+		txt = append(txt, words[(i*i+3*i)%len(words)]...)
+		if i%97 == 0 {
+			txt = append(txt, byte('0'+i%10), 0, 0xff)
+		}
+	}
+	return [][]byte{db[:n], Fibonacci(n, 'a', 'b'), txt[:n]}
+}
